@@ -612,6 +612,20 @@ theorem dpop_jti_replay_refused (c : Sq) (st : Store) (r r2 : DpopReq) (hj : r2.
     (handleDpop { c with now := c.now + dt } (handleDpop c st r).2 r2).1 ≠ .ok :=
   handleDpop_replay_refused c st r r2 hj hok dt hdt
 
+/-- **No replay of a DPoP proof id inside its TTL, through any history**: once a proof was accepted, every proof with the
+    same jti is refused as long as less than the TTL has passed, whatever requests of any endpoint were served in between. -/
+theorem dpop_jti_no_replay_within_ttl (incl : Bool) (ttl : Kind → Nat) (pk : Pkce) (now : Nat) (st : Store) (r : DpopReq)
+    (hok : (handleDpop ⟨incl, now, ttl⟩ st r).1 = .ok)
+    (later : List (Nat × Form)) (dt : Nat) (r2 : DpopReq) (hj : r2.jti = r.jti)
+    (hwin : (runForms incl ttl pk now (handleDpop ⟨incl, now, ttl⟩ st r).2 later).2.2 + dt < now + ttl (.mark .jti)) :
+    (handleDpop ⟨incl, (runForms incl ttl pk now (handleDpop ⟨incl, now, ttl⟩ st r).2 later).2.2 + dt, ttl⟩
+        (runForms incl ttl pk now (handleDpop ⟨incl, now, ttl⟩ st r).2 later).2.1 r2).1 ≠ .ok := by
+  have hfind := handleDpop_ok_find ⟨incl, now, ttl⟩ st r hok
+  have hkeep := runForms_keeps_jti_live incl ttl pk r.jti _ later now _ hfind (by show _ < now + ttl (.mark .jti); omega)
+  apply handleDpop_refuses_used
+  rw [hj, stGet_of_find_live incl _ _ _ _ hkeep (by show _ + dt < now + ttl (.mark .jti); omega)]
+  simp
+
 example :
     (handleReqObj ⟨true, 0, todayTTL⟩ [] ⟨"r1", "holderA", false⟩) = (.err "invalid_request" "request object not found", []) ∧
     (gadSeq ⟨true, 0, todayTTL⟩ [(reqObjKey "r1", ⟨"holderA|get", 60⟩)] (reqObjKey "r1")) = (some "holderA|get", []) ∧
